@@ -7,6 +7,7 @@ import (
 	"runtime/debug"
 	"runtime/pprof"
 	"sort"
+	"strings"
 	"time"
 )
 
@@ -25,7 +26,25 @@ func main() {
 	flag.StringVar(&verifDir, "verif", "/verif", "verif dir (evidence, known findings)")
 	flag.StringVar(&onlyKey, "only", "", "re-evaluate and print only the obligation with this key (replay)")
 	list := flag.Bool("list", false, "list all obligations")
+	dumpFuncs := flag.String("dump-funcs", "", "write the names of all repository functions to this file (reference list for the new-helper rule) and exit")
 	flag.Parse()
+	if *dumpFuncs != "" {
+		p, err := LoadRepo()
+		if err != nil {
+			fmt.Println("ERROR:", err)
+			os.Exit(1)
+		}
+		var names []string
+		for f := range p.AllFns {
+			if inRepo(f) && f.Synthetic == "" && f.Parent() == nil && !strings.HasSuffix(p.relFile(f.Pos()), "_test.go") {
+				names = append(names, fname(f))
+			}
+		}
+		sort.Strings(names)
+		os.WriteFile(*dumpFuncs, []byte(strings.Join(names, "\n")+"\n"), 0o644)
+		fmt.Println("wrote", len(names), "function names")
+		return
+	}
 	if t := os.Getenv("VERIF_TIER"); t != "" && *tier == "" {
 		*tier = t
 	}
